@@ -401,8 +401,23 @@ def _replay(darr, np_, ob, fx, tmp):
             if (h.shape != model.shape or len(h) != model.shape[0] or h.size != model.size
                     or h.nbytes != model.nbytes):
                 problems.append(f'{tag}: {nm} shape/len/size/nbytes differ')
-        raw = np_.fromfile(path + '/arrayvalues.bin', dtype=model.dtype).reshape(model.shape)
-        if not rp.same(np_, raw, model):
+        import json as _json
+        import os as _os
+        try:
+            js = _json.load(open(path + '/arraydescription.json'))
+            missing = [k for k in ('numtype', 'byteorder', 'shape', 'arrayorder', 'darrversion', 'darrobject') if k not in js]
+            if missing:
+                problems.append(f'{tag}: arraydescription.json lacks {missing}')
+            elif tuple(js['shape']) != model.shape or js['numtype'] != model.dtype.name:
+                problems.append(f'{tag}: descriptor shape/numtype {js["shape"]} {js["numtype"]} != {model.shape} {model.dtype.name}')
+            if _os.path.getsize(path + '/arrayvalues.bin') != model.nbytes:
+                problems.append(f'{tag}: data file length {_os.path.getsize(path + "/arrayvalues.bin")} != prod(shape)*itemsize {model.nbytes}')
+            if not _os.path.exists(path + '/README.txt'):
+                problems.append(f'{tag}: README.txt missing')
+        except ValueError:
+            problems.append(f'{tag}: arraydescription.json is not JSON')
+        raw = np_.fromfile(path + '/arrayvalues.bin', dtype=model.dtype)
+        if raw.size != model.size or not rp.same(np_, raw.reshape(model.shape), model):
             problems.append(f'{tag}: raw file differs from model')
 
     if ob in ('S-iterappend', 'S-append'):
